@@ -12,11 +12,13 @@ HARNESS = os.path.join(core.VERIF, "harness", "c03.py")
 def run(tier: str) -> int:
     chk = core.Check("C03", tier, "other")
     chk.encode("tel2puml/events.py", "EventSet (__init__, __eq__, __hash__, is_subset), Event.update_event_sets, Event.update_in_event_sets")
+    chk.encode("tel2puml/utils.py", "get_weighted_cover (answer independent of the iteration order of its input set)")
     chk.encode("tel2puml/pv_to_puml/data_ingestion.py", "cluster_events_by_job_id, update_and_create_events_from_clustered_pvevents, "
                "get_graph_solutions_from_clustered_events, update_and_create_events_from_graph_solution(s), get_events_set_from_events_list")
     n = 5 if tier == "quick" else 6
     chk.bounds = {"a": "event lists of length <=3 over 3 names x every permutation; subset/equality over all pairs of 8 list shapes",
                   "b": "three successor lists from 8 shapes (incl. repeats and the empty list) in 4 presentation orders with repetition",
+                  "d": "every family of observed sets over 3 events presented to get_weighted_cover as a real set and in 4 explicit iteration orders",
                   "c": f"streams of {n} PV events: EVERY interleaving of up to 3 jobs (restricted-growth assignment), ids renamed, "
                        "timestamps changed, stream reversed, whole stream supplied twice"}
     chk.outside = ["convergence of the graph walk for every set iteration order / hash seed (walk_puml_logic_graph.py, detect_loops.py: "
@@ -35,7 +37,18 @@ def run(tier: str) -> int:
              *[core.Cond(f"c.clustering n={n} shard={fx}", HARNESS, "cluster", {"kind": "cluster", "n": n, "fix": fx}, tmo)
                for fx in ([0, 0], [0, 1], [1, 0], [1, 1], [1, 2])],
              core.Cond("c.twin", HARNESS, "cluster_twin", {"kind": "cluster", "n": 4}, tmo, expect_violation=True)]
-    return simple.run_conditions(chk, HARNESS, conds)
+    # hash-seed dimension for the one gate-inference kernel that is reachable (shared harness with C06)
+    h06 = os.path.join(core.VERIF, "harness", "c06.py")
+    conds.append(core.Cond("d.get_weighted_cover independent of set iteration order, |U|=3", h06, "check", {"k": 3, "kind": "order"}, tmo))
+    results_main = [c for c in conds if c.module == HARNESS]
+    results_h06 = [c for c in conds if c.module == h06]
+    res = core.run_conds(results_main + results_h06)
+    core.handle_crosshair_results(chk, [r for r in res if r.cond.module == HARNESS], simple.make_replay(HARNESS))
+    core.handle_crosshair_results(chk, [r for r in res if r.cond.module == h06], simple.make_replay(h06))
+    chk.samples += [{"condition": r.cond.name, "cfg": r.cond.cfg, "paths": r.paths, "status": r.status} for r in res[:: max(1, len(res) // 8)]][:10]
+    chk.extra["conditions"] = len(conds)
+    chk.extra["paths_explored_total"] = sum(r.paths for r in res)
+    return chk.finish()
 
 
 def replay_file(path: str) -> int:
